@@ -278,6 +278,8 @@ class MergedSequences(Generic[_ValueT]):
     if idx_seq == len(indices) and index > indices[-1]:
       return _MergedSequenceIndex(idx_seq - 1)
     if index == indices[idx_seq]:
+      # Empty sequences start at the same index, take the last one of them.
+      idx_seq = bisect.bisect_right(indices, index) - 1
       return _MergedSequenceIndex(idx_seq, 0)
     return _MergedSequenceIndex(idx_seq - 1, index - indices[idx_seq - 1])
 
